@@ -167,4 +167,23 @@ theorem probsRow_ok (row : List (Nat × Rat)) (labels : List Nat) (k : Nat)
     · rw [if_neg h0, map_tab, sumR_tab_div, htot, div_self h0]
       simp [absR]
 
+/-- ★ the entries of a row of `normalize(A·M)`: the weight towards cluster `c` divided by the weight of the row
+    (non-negative weights, neighbours with labels below `k`); null when the row has no weight -/
+theorem probsRow_entry (row : List (Nat × Rat)) (labels : List Nat) (k : Nat)
+    (hw : ∀ e ∈ row, 0 ≤ e.2) (hl : ∀ e ∈ row, labels.getD e.1 k < k) {c : Nat} (hc : c < k) :
+    (normalizeRow (tab k (classSum row (fun e => labels.getD e.1 k) (·.2)))).getD c 0 =
+      if rowWeight row = 0 then 0
+      else classSum row (fun e => labels.getD e.1 k) (·.2) c / rowWeight row := by
+  set s := classSum row (fun e => labels.getD e.1 k) (·.2) with hs
+  have hnn : ∀ c, 0 ≤ s c := fun c => classSum_nonneg hw c
+  have htot : sumR (tab k s) = rowWeight row := sum_classSum row _ _ k hl
+  have hnorm : sumR ((tab k s).map absR) = rowWeight row := by
+    rw [map_tab, ← htot]
+    exact sumR_tab_congr (fun c _ => absR_of_nonneg (hnn c))
+  unfold normalizeRow
+  simp only [hnorm]
+  by_cases h0 : rowWeight row = 0
+  · simp only [h0, if_true, map_tab, tab_getD, if_pos hc]
+  · simp only [h0, if_false, map_tab, tab_getD, if_pos hc]
+
 end SkNet.Clustering
